@@ -28,10 +28,18 @@ FORMULAS = {
     5: "y ~ poly(xc, 2) + center(xc) + (scale(xc) | g)",   # training parameters that are exactly zero
     6: "y ~ ustd(x) + ustd(z, shift=1):f + (ustd(x) | h)",     # a user-defined stateful transform from the caller's namespace
     7: "y ~ C(k) + T(k, 2):x + (1 | k)",   # numeric levels: stored as int64 in frame 1 and as float64 in frame 2 (labels 2 / 2.0)
+    8: "y ~ binary(u01) + C(f, ENC) + (1 | g)",   # a remembered success level that is 0; an encoding OBJECT from the caller's namespace
+    9: "y ~ C(g, ENC) + B(u01, 0):x",             # the same encoding object on a factor with other levels
 }
 from fv.rows import UserStd  # noqa: E402  pylint: disable=wrong-import-position
 
-NS = {"KL": [1, 2, 3, 10, 20], "ustd": UserStd}
+def _enc():
+    from formulae.categorical import Sum
+
+    return Sum()
+
+
+NS = {"KL": [1, 2, 3, 10, 20], "ustd": UserStd}   # + "ENC": a Sum() object, created at the first build (importing this module must not import formulae)
 _FRAMES = {}
 
 
@@ -52,6 +60,10 @@ def frames():
             df[col] = np.array(vals, dtype=object)
         df["o"] = pd.Categorical([["lo", "mid", "hi"][(i + seed) % 3] for i in range(n)], categories=["lo", "mid", "hi"], ordered=True)
         df["k"] = np.array([[1, 2, 3][(i * 5 + seed) % 3] for i in range(n)], dtype=np.int64)
+        # a 0/1 column; the new frame 3 holds no 0 at all
+        df["u01"] = np.array([1] * n if fid == 3 else [(i * 3 + seed) % 2 for i in range(n)], dtype=np.int64)
+        if fid != 3:
+            df.loc[df.index[0], "u01"], df.loc[df.index[1], "u01"] = 0, 1
         if fid in (2, 4):
             df["k"] = df["k"].astype(float)
         if fid in (3, 4):
@@ -93,6 +105,8 @@ def do_build(f, D):
         warnings.simplefilter("ignore")
         from formulae import design_matrices
 
+        if "ENC" not in NS:
+            NS["ENC"] = _enc()
         return design_matrices(FORMULAS[f], frames()[D], extra_namespace=NS)
 
 
@@ -134,6 +148,8 @@ class Runner:
 
     def __init__(self):
         self.server = fresh.FreshServer()
+        if "ENC" not in NS:
+            NS["ENC"] = _enc()   # the caller's encoding object exists before the history starts
         self.events = []
         self.eid = 0
         self.intern = {}
@@ -149,7 +165,7 @@ class Runner:
         snap = {"config": config["EVAL_UNSEEN_CATEGORIES"], "registry": repr(sorted((k, id(v)) for k, v in TRANSFORMS.items()))}
         for fid, df in frames().items():
             snap[f"frame{fid}"] = cells.frame_digest(df)
-        snap["namespace"] = repr(NS)
+        snap["namespace"] = repr(sorted((k, repr(v), repr(sorted(vars(v).items())) if hasattr(v, "__dict__") and not isinstance(v, type) else "") for k, v in NS.items()))
         for k, dm in enumerate(designs):
             if dm is None:
                 continue
@@ -279,7 +295,7 @@ def random_history(rng, maxlen):
         r = rng.random()
         if nd == 0 or r < 0.2:
             if nd < 4:
-                ops.append({"op": "build", "f": rng.randint(1, 7), "D": rng.randint(1, 2)})
+                ops.append({"op": "build", "f": rng.randint(1, 9), "D": rng.randint(1, 2)})
                 nd += 1
                 continue
         if r < 0.7:
